@@ -38,6 +38,11 @@ def run(idx, rep, tier):
     r3(idx, rep)
     r4(idx, rep)
     r5(idx, rep)
+    # ':last' means the most recent run *now*: FileManager keeps no memo of resolved references, and the reference is split into
+    # group / run / member at the first marker (C20's ReferenceParser table)
+    from . import c11, c20
+    c11.r3(idx, K.as_rule(rep, "R5"))
+    c20.r5(idx, K.as_rule(rep, "R5", keep=lambda k: "ReferenceParser table" in k))
     rep.stats["exhaustive"] = True
 
 
